@@ -160,6 +160,7 @@ fn run_history(ctx: &mut Ctx, ty: &Ty, qi: usize, steps: &[Step], observe_every:
 }
 
 pub fn suite_c04(ctx: &mut Ctx) {
+    crate::la::suite_dot(ctx);
     for ty in FIXED {
         let lat = gen::lattice(ty.n, ty.es, &mut ctx.rng, 2);
         let nh = ctx.q(2500, 60_000);
